@@ -343,21 +343,38 @@ def rule_zero_below_sp(ctx):
     d = dict(rr[0][1][3])
     off = core(d["end"])
     W = 8
-    want = ("bin", "BitAnd", ("bin", "Sub", ("bin", "Add", ("param", 4), ("const", W, "usize")), ("const", 1, "usize")), ("const", ~(W - 1) & ((1 << 64) - 1), "usize"))
 
-    def n(e):
-        e = core(e)
-        if e[0] == "bin":
-            return ("bin", e[1], n(e[2]), n(e[3]))
-        if e[0] == "un":
-            from engine.origin import fold
-            return n(fold(("un", e[1], n(e[2]))))
-        if e[0] == "const":
-            return ("const", e[1] & ((1 << 64) - 1), "usize")
-        return e
-    ctx.check(core(d["start"]) == ("const", 0, "usize") and n(off) == want, R, "aligned-offset", b.where(rr[0][0]),
-              "bytes [0, align_up(sp_offset, 8)) are selected for zeroing", "zeroed prefix is [%s, %s)" % (show(d["start"]), show(off)[:120]))
-    ctx.check(n(dict(rf[0][1][3])["start"]) == n(off), R, "words-start-at-offset", b.where(rf[0][0]), "word classification starts exactly at the aligned offset", "words start at %s" % show(dict(rf[0][1][3])["start"])[:120])
+    def leaf(e):
+        # len(stack_copy)
+        if e[0] == "len" or (e[0] == "call" and e[1].split("::")[-1] == "len"):
+            if any(s_ == ("param", 2) for s_ in walk(e)):
+                return leaf.len
+        return None
+
+    def value(expr, sp, ln):
+        leaf.len = ln
+        return ipe.Eval({("param", 4): sp}, leaf=leaf).val(expr)[0]
+    okoff = core(d["start"]) == ("const", 0, "usize")
+    rows = 0
+    bad = None
+    try:
+        for sp in (0, 1, 7, 8, 9, 15, 16, 2047, 2048, 4095, 4096, (1 << 64) - 1, (1 << 64) - 8):
+            for ln in (0, 1, 7, 8, 16, 2048, 4096, 8192):
+                rows += 1
+                want_v = min(((sp + W - 1) & ~(W - 1)) & ((1 << 64) - 1) if sp <= (1 << 64) - W else (1 << 64) - W, ln)
+                got = value(off, sp, ln)
+                if got != want_v:
+                    okoff = False
+                    bad = bad or (sp, ln, got, want_v)
+    except ipe.Unsupported as e:
+        okoff = False
+        bad = ("unsupported", str(e))
+    ctx.check(okoff, R, "aligned-offset", b.where(rr[0][0]),
+              "bytes [0, min(align_up(sp_offset, 8), len)) are selected for zeroing on all %d (sp_offset, len) boundary pairs" % rows,
+              "zeroed prefix end %s is not min(align_up(sp_offset, 8), len): %s" % (show(off)[:140], bad))
+    st2 = core(dict(rf[0][1][3])["start"])
+    same = nosite(st2) == nosite(off)
+    ctx.check(same, R, "words-start-at-offset", b.where(rf[0][0]), "word classification starts exactly at the end of the zeroed prefix", "words start at %s" % show(st2)[:120])
     # the prefix loop and the remainder loop store 0 into each byte
     zero_loops = 0
     for h, body in b.loops().items():
